@@ -1,4 +1,4 @@
-import SelenModel.Model.IntCore
+import SelenModel.Model.Engine
 import Driver.Util
 /-
 Store / view / propagator ops of the line protocol: model side (integer core).
@@ -8,8 +8,9 @@ open Selen
 
 structure CoreSt where
   doms : Array Dom := #[]
+  props : List PK := []
 
-def CoreSt.store (s : CoreSt) : Store := fun i => s.doms.getD i []
+def CoreSt.store (s : CoreSt) : Store := fun i => s.doms.getD i [0]
 def CoreSt.ctx (s : CoreSt) : Ctx := { st := s.store, ev := [] }
 
 def sortInts (l : List Int) : List Int := (l.toArray.qsort (· < ·)).toList
@@ -120,6 +121,13 @@ def showRes (n : Nat) (r : Option Ctx) : String :=
   | none => "none"
   | some c => s!"some {showDoms n c.st} ev={showNats c.ev}"
 
+def driverFuel : Nat := 10000000
+
+def showOut (o : Out) : String :=
+  if o.outOfFuel then "out-of-fuel" else
+  let sols := o.solutions
+  s!"n={sols.length} sols={";".intercalate (sols.map (fun v => ",".intercalate (v.map toString)))}"
+
 def coreStep (st : CoreSt) (ws : List String) : CoreSt × String :=
   match ws with
   | "st.var" :: vs =>
@@ -157,6 +165,34 @@ def coreStep (st : CoreSt) (ws : List String) : CoreSt × String :=
     match parseView r with
     | some (v, []) => (st, s!"min={v.minRaw st.store} max={v.maxRaw st.store}")
     | _ => (st, "bad-op")
+  | "post" :: r =>
+    match parsePK r with
+    | none => (st, "bad-op")
+    | some pk => ({ st with props := st.props ++ [pk] }, s!"p{st.props.length}")
+  | ["fix", seed] =>
+    match parseInt? seed with
+    | none => (st, "bad-op")
+    | some sd =>
+      let pol := if sd < 0 then Policy.fifo else Policy.seeded sd.toNat
+      match propagate st.props pol driverFuel (List.range st.props.length) st.store with
+      | .fail => (st, "fail")
+      | .fuel => (st, "out-of-fuel")
+      | .ok s' => (st, s!"ok {showDoms st.doms.size s'}")
+  | ["enum", seed] =>
+    match parseInt? seed with
+    | none => (st, "bad-op")
+    | some sd =>
+      let pol := if sd < 0 then Policy.fifo else Policy.seeded sd.toNat
+      let o := search st.doms.size none pol driverFuel st.props st.store
+      (st, showOut o)
+  | "opt" :: dir :: seed :: r =>
+    match parseInt? seed, parseView r with
+    | some sd, some (v, []) =>
+      let pol := if sd < 0 then Policy.fifo else Policy.seeded sd.toNat
+      let obj := if dir = "max" then IView.opp v else v
+      let o := search st.doms.size (some obj) pol driverFuel st.props st.store
+      (st, showOut o)
+    | _, _ => (st, "bad-op")
   | _ => (st, "bad-op")
 
 end Driver
